@@ -10,6 +10,7 @@ import (
 	_ "verif/h/cli"
 	_ "verif/h/codec"
 	_ "verif/h/conn"
+	_ "verif/h/e2e"
 	_ "verif/h/life"
 	_ "verif/h/order"
 	_ "verif/h/pubsub"
